@@ -1693,7 +1693,7 @@ def hashvar_multimap_configs(ctx):
     if not ctx.quick:
         shapes += [(0, 0, 1, 1, 1), (0, 1, 0, 1, 0), (0, 0, 0, 1, 1)]
     for n, maps in enumerate(shapes):
-        for r in range(1 if ctx.quick else 3):
+        for r in range(1 if ctx.quick or len(maps) > 4 else 3):
             add([(H[(n + 2 * r + 3 * j) % 6], DEFAULTS[(n + r + j) % 2] if j
                   else 5) for j in range(len(maps))], maps)
     # the program of the library's documentation: settings and counters
@@ -1704,7 +1704,7 @@ def hashvar_multimap_configs(ctx):
         shapes += [(0, 1, 2, 2, 1), (0, 0, 1, 2, 2), (0, 1, 2, 1, 0),
                    (0, 1, 0, 2)]
     for n, maps in enumerate(shapes):
-        for r in range(1 if ctx.quick else 3):
+        for r in range(1 if ctx.quick or len(maps) > 4 else 3):
             add([(H[(2 * n + r + 5 * j) % 6], DEFAULTS[(n + r + j + 1) % 2]
                   if j != 1 else 5) for j in range(len(maps))], maps)
     add([("q", -1), ("h", -1), ("i", -1)], (0, 1, 2))
